@@ -784,3 +784,13 @@ class P(Prop):
         else:
             for _ in range(6):
                 yield self.rand_track(rng)
+
+
+# ---- tie to the source by translation (tools/py2lean.py -> lean/TracklibVerif/Gen/ObsCoords.lean, regenerated on every run)
+P.tie_modules = ["TracklibVerif.Tie.C14"]
+P.theorems = P.theorems + [
+    ("TracklibVerif.Tie.C14", "TV.Tie.C14.tie_geoToEcef", "whenever the Lean translation of the CURRENT source of GeoCoords.toECEFCoords returns, it returns the model's geoToEcef (all inputs; integer literals 1, 2 = 1.0, 2.0)"),
+    ("TracklibVerif.Tie.C14", "TV.Tie.C14.tie_ecefToEnu", "whenever the translation of the CURRENT source of ECEFCoords.toENUCoords returns, it returns the model's ecefToEnu (base.toECEFCoords() read as the model's base.toEcef)"),
+    ("TracklibVerif.Tie.C14", "TV.Tie.C14.tie_enuToEcef", "whenever the translation of the CURRENT source of ENUCoords.toECEFCoords returns, it returns the model's enuToEcef (base.toECEFCoords() read as the model's base.toEcef)"),
+    ("TracklibVerif.Tie.C14", "TV.Tie.C14.tie_ecefToGeo", "whenever the translation of the CURRENT source of ECEFCoords.toGeoCoords returns, it returns the model's ecefToGeo (all inputs; integer literals 1, 2, 3 = 1.0, 2.0, 3.0)"),
+]
